@@ -5,7 +5,8 @@ import LlgoVerif.Model.AtomicValue
 
     `run <cfg> <val> <progs> <schedule>`
       <cfg>      three bits `ticketLess oneBroadcast casRetry` (`000` = pinned tree, `111` = repaired)
-      <val>      initial semaphore count
+      <val>      initial semaphore count, optionally `@<c0>`: both ticket counters of the notify list start at c0
+                 (counters and tickets are printed as the code sees them, modulo 2^32)
       <progs>    threads separated by `;`, operations by `.`: `A` acquire `R` release `W` add+wait `O` NotifyOne `B` NotifyAll
       <schedule> actions separated by `,`: `s<i>` | `s<i>><pick>` | `w<i>` ; `-` = empty
     answer: `<trace> # <end>` in the format of harness/c11 (one semaphore, one list):
@@ -50,14 +51,14 @@ def showEvent : Option Event → String
   | none => "-"
   | some (.acquired _) => "A0"
   | some .released => "R0"
-  | some (.ticket t) => s!"K0.{t}"
-  | some (.waitRet t n) => s!"W0.{t}.{n}"
+  | some (.ticket t) => s!"K0.{t % W32}"
+  | some (.waitRet t n) => s!"W0.{t % W32}.{n % W32}"
   | some .notifiedOne => "O0"
   | some .notifiedAll => "B0"
 
 def showState (s : State) : String :=
   let ths := s.threads.map fun t => s!"{t.status s.sh}.{t.parkedAt}.{t.opsDone}"
-  s!"S{s.sh.val}/{s.sh.waiters}:L{s.sh.wait}/{s.sh.notify}:T{",".intercalate ths}"
+  s!"S{s.sh.val}/{s.sh.waiters}:L{s.sh.wait % W32}/{s.sh.notify % W32}:T{",".intercalate ths}"
 
 def endOf (s : State) : String :=
   if s.threads.all (fun t => t.pc = .done) then "done"
@@ -178,11 +179,14 @@ end VDrv
 def handle (line : String) : String :=
   match fields line with
   | ["run", c, v, progs, sched] =>
-    match parseCfg c, v.toNat?, (progs.splitOn ";").mapM parseProg with
-    | some cfg, some v, some ps =>
+    let (vs, c0s) := match v.splitOn "@" with
+      | [a, b] => (a, b)
+      | _ => (v, "0")
+    match parseCfg c, vs.toNat?, c0s.toNat?, (progs.splitOn ";").mapM parseProg with
+    | some cfg, some v, some c0, some ps =>
       let acts := if sched = "-" then [] else sched.splitOn ","
-      runTrace cfg (init v ps) acts
-    | _, _, _ => "bad-op"
+      runTrace cfg (initAt v c0 ps) acts
+    | _, _, _, _ => "bad-op"
   | ["vrun", progs, sched] =>
     match (progs.splitOn ";").mapM VDrv.parseProg with
     | some ps =>
